@@ -68,11 +68,10 @@ def specs_from(seq):
 
 def cycles_checks(specs, cycles, perm, cons=None, ordered=True):
     """partition / exclusivity / order-without-permutation on a cycles list of the real code.  `cons`: the constraint
-    descriptors the Scheduler was built with (None = default): exclusivity is required when `qubit_constraint` is among
-    them (first, last, anywhere); for every list, inside a cycle (in the returned order) every later member must have been
-    allowed against every earlier member by EVERY constraint function (verdicts evaluated on the specs).  `ordered=False`:
-    the cycles were reconstructed from gate_cycle_indices, the order of approval inside a cycle is not known -- the ordered
-    constraint functions (`["f", i, j]`) are then not evaluated."""
+    descriptors the Scheduler was built with (None = default): exclusivity -- the property's clause "no two gates of a cycle
+    share a qubit" -- is required when `qubit_constraint` is among them (first, last, anywhere).  Whether the other user
+    functions are respected is NOT judged here (it is no clause of the property; the correspondence compares it with the
+    model, theorem cycle_respects_constraints)."""
     n = len(specs)
     flat = [i for c in cycles for i in c]
     if sorted(flat) != list(range(n)):
@@ -87,12 +86,6 @@ def cycles_checks(specs, cycles, perm, cons=None, ordered=True):
             if sc.cons_has_qubit(cons) and used[a] & used[b]:
                 return f"gates {a} and {b} share a qubit inside one cycle ({cycles})" + (
                     f" although qubit_constraint is among the constraint functions {cons}" if cons is not None else "")
-            for f in (cons or []):
-                if not ordered and not isinstance(f, str):
-                    continue
-                if not sc.cons_verdict(f, specs, b, a):
-                    return (f"gates {a} and {b} are in one cycle ({cycles}) although the constraint function {f} of {cons} "
-                            f"forbids {b} next to {a}")
     if not perm:
         for i in range(n):
             for j in range(i + 1, n):
@@ -101,22 +94,26 @@ def cycles_checks(specs, cycles, perm, cons=None, ordered=True):
     return None
 
 
-def documented_order_check(specs, cycles):
-    """The clause `order_respected` (QipVerif.C05.order_respected / order_respected_cons), stated with the DOCUMENTED rule
-    (`sc.documented_rule`, a fixed reference copy, never the code's function): two gates i < j that share a qubit and that
-    the documented rule does not declare commuting keep their order.  Evaluated after the physical clauses: a failure here
-    with an unchanged unitary means the dependency graph lost an edge between gates that happen to commute physically
-    (e.g. X and RX on one qubit, which the rule does not relate)."""
-    where = {i: ci for ci, c in enumerate(cycles) for i in c}
-    used = [sc.used_of(s) for s in specs]
-    for i in range(len(specs)):
-        for j in range(i + 1, len(specs)):
-            if used[i] & used[j] and not sc.documented_rule(specs[i], specs[j]) and not where[i] < where[j]:
-                return (f"gates {i} ({specs[i][0]} {specs[i][1]} {specs[i][2]}) and {j} ({specs[j][0]} {specs[j][1]} {specs[j][2]}) share a "
-                        f"qubit and are not declared commuting by the documented rule, but are in cycles {where[i]} and {where[j]} "
-                        f"of {cycles} (clause order_respected"
-                        + ("; the two gates commute physically, the unitary is unchanged)" if sc.truly_commute(specs[i], specs[j]) else ")"))
-    return None
+def order_note(specs, cycles):
+    """NOT an oracle clause -- a note attached to a correspondence disagreement: does the cycles list of the code reorder a
+    qubit-sharing pair that the DOCUMENTED rule (`sc.documented_rule`, fixed reference copy) does not declare commuting?
+    Then the model theorem order_respected no longer applies to the code; whether the PROPERTY is violated is decided by
+    the oracle alone (unitary, exclusivity), e.g. X and RX on one qubit commute physically."""
+    try:
+        where = {i: ci for ci, c in enumerate(cycles) for i in c}
+        used = [sc.used_of(x) for x in specs]
+        for i in range(len(specs)):
+            for j in range(i + 1, len(specs)):
+                if used[i] & used[j] and not sc.documented_rule(specs[i], specs[j]) and not where[i] < where[j]:
+                    phys = sc.truly_commute(specs[i], specs[j])
+                    return (f"; note: model theorem order_respected no longer applies to the code: gates {i} ({specs[i][0]} {specs[i][1]} "
+                            f"{specs[i][2]}) and {j} ({specs[j][0]} {specs[j][1]} {specs[j][2]}), not declared commuting by the documented "
+                            f"rule, are in cycles {where[i]} and {where[j]}; "
+                            + ("the two gates commute physically, the property is not violated by this pair" if phys else
+                               "the two gates do not commute physically"))
+    except Exception:
+        pass
+    return ""
 
 
 class C05(PropertyCheck):
@@ -375,7 +372,7 @@ class C05(PropertyCheck):
                     res.disagree(inp, m["status"], st, "verdict", w)
                 continue
             if m["cycles"] != cyc:
-                res.disagree(inp, m["cycles"], cyc, "cycles list", w)
+                res.disagree(inp, m["cycles"], cyc, "cycles list" + (order_note(specs, cyc) if perm and cyc else ""), w)
             elif m["idx"] != list(idx):
                 res.disagree(inp, m["idx"], list(idx), "gate_cycle_indices", w)
             elif shuf is not None and m["used"] != len(shuf):
@@ -651,11 +648,7 @@ class C05(PropertyCheck):
         err = float(np.abs(U0 - U1).max())
         if err > 1e-9:
             return True, f"scheduled order {cycles} changes the unitary (max entry difference {err:.3g})"
-        if perm:
-            bad = documented_order_check(specs, cycles)
-            if bad:
-                return True, bad
-        return False, f"cycles {cycles}: partition, exclusive, same unitary, order of undeclared pairs kept"
+        return False, f"cycles {cycles}: partition, exclusive, same unitary"
 
     def _replay_history(self, ctx, w):
         """several schedule() calls on ONE Scheduler object; the property is evaluated on every gate-mode result"""
@@ -725,8 +718,10 @@ class C05(PropertyCheck):
                 if st3 != "ok":
                     return True, f"schedule (gate_cycle_indices) raised: {st3}"
                 by_idx = [sorted(i for i, c in enumerate(idx) if c == k) for k in range(max(idx) + 1)]
-                if by_idx != [sorted(c) for c in cycles]:
-                    return True, f"gate_cycle_indices {list(idx)} do not describe the returned cycles {cycles}"
+                if by_idx != [sorted(c) for c in cycles]:      # the second output form is judged by the property as well
+                    f2, d2 = self._judge(specs, N, perm, by_idx, w.get("scope"), cons, ordered=False)
+                    if f2:
+                        return True, f"gate_cycle_indices {list(idx)}: " + d2
         return self._judge(specs, N, perm, cycles, w.get("scope"), cons,
                            ordered=not (repeat and not w.get("repeat_cycles")))
 
